@@ -51,9 +51,18 @@ def run_cli_check(prop, tier):
         out.violation("%s|%s" % (v["rule"], json.dumps(mode, sort_keys=True)), "%s (mode %s)" % (v["rule"], json.dumps(mode)),
                       {"kind": "cli_l2", "mode": mode, "verdict": {k: v[k] for k in ("rule", "scenario", "line")}, "events": evs[:60]})
     samples = [slice_at_line(traces[0], 2)[:12]]
+    l1cov = {}
+    if prop == "C16":
+        # no temporary or side file inside the library either: the heavy in-place layouts under a descriptor watch
+        import clone_checks
+        build_harness()
+        l1runs, l1sum, l1counts = clone_checks.run_l1_sidefiles(tier, out, workdir)
+        runs += l1runs
+        counts.update(l1counts)
+        l1cov = {"runs": l1runs, "events_validated": l1sum["events"], "rule": "while reorder_in_place / feed work on the output no path other than those open before appears under /proc/self/fd"}
     shutil.rmtree(workdir, ignore_errors=True)
     out.coverage = {"states": states, "transitions": trans, "traces_validated_against_impl": runs, "trace_events_validated": summary["events"],
-                    "modes": nmodes, "verdicts_all_properties": counts, "exhaustive": True,
+                    "modes": nmodes, "verdicts_all_properties": counts, "library_descriptor_watch": l1cov, "exhaustive": True,
                     "model_checking_runs": [{"cfg": "CliMC.cfg", "distinct_states": states, "violated": res["violated"], "actions_taken": {k: v for k, v in res["coverage"].items() if v > 0}}],
                     "rule": "the full mode product of CliMC.tla: {clone, compress} x output {absent, regular, block device smaller/equal/larger than the source} x --force-create x --seed-output x archive {valid, invalid} x --verify-header {none, match, mismatch} x seeds x stdin seed x --verify-output x {local, http} x stale temporary file x damaged chunk met after the output was opened (late failure) x output created by another party while the command waits for the server (race) x output name a dangling link; one real process per mode",
                     "samples": samples}
@@ -67,6 +76,10 @@ def replay_cli(path):
     build_cli()
     r = json.load(open(path))
     rp = r["replay"]
+    if rp.get("kind") == "clone_l1":
+        import clone_checks
+        os.environ["VH_FDWATCH"] = "1"
+        return clone_checks.replay_clone(path)
     workdir = os.path.join(WORK, "replay_%d" % os.getpid())
     os.makedirs(workdir, exist_ok=True)
     modes = os.path.join(workdir, "modes.ndjson")
